@@ -43,6 +43,17 @@ type Doc struct {
 	M    map[string]string `json:"m,omitempty" xml:"-" yaml:"m,omitempty"`
 }
 
+// holder keeps an untyped value below a struct destination.
+type holder struct {
+	Items []interface{} `json:"items"`
+	Box   *box          `json:"box"`
+	Boxes []box         `json:"boxes"`
+}
+
+type box struct {
+	V interface{} `json:"v"`
+}
+
 // StructCase: produce a value with a structured codec, then consume the output again.
 type StructCase struct {
 	Codec string `json:"codec"` // json | xml | yaml
@@ -210,6 +221,27 @@ func CheckStruct(c StructCase) *kit.Violation {
 		}
 		if !reflect.DeepEqual(got, value) {
 			return kit.Failf("%s round trip of an untyped value: produced %q, consumed %#v, want %#v", c.Codec, clipb(enc), got, value)
+		}
+		if c.Codec == "json" {
+			// the same untyped value one and two levels below a struct destination (r7)
+			in := holder{Items: []interface{}{value}, Box: &box{V: value}, Boxes: []box{{V: value}}}
+			var buf bytes.Buffer
+			if v := kit.Guard("json producer (struct holding the untyped value)", func() { err = prod.Produce(&buf, in) }); v != nil {
+				return v
+			}
+			if err != nil {
+				return kit.Failf("json producer: unexpected error writing a struct that holds %#v: %v", value, err)
+			}
+			var out holder
+			if v := kit.Guard("json consumer into a struct with untyped members", func() { err = cons.Consume(bytes.NewReader(buf.Bytes()), &out) }); v != nil {
+				return v
+			}
+			if err != nil {
+				return kit.Failf("json consumer: unexpected error reading back %q: %v", clipb(buf.Bytes()), err)
+			}
+			if !reflect.DeepEqual(out, in) {
+				return kit.Failf("json round trip of an untyped value held by a struct ([]interface{} member, *struct and []struct with an interface{} member): produced %q, consumed %#v, want %#v", clipb(buf.Bytes()), out, in)
+			}
 		}
 		return nil
 	}
